@@ -128,3 +128,30 @@ pub fn module_comments(module: &crate::Module) -> Vec<(u32, u32, u32, String)> {
         .map(|c| (c.uid, c.line, c.start_offset, c.comment.clone()))
         .collect()
 }
+
+/// `tokenizer::tokenize` on a file (with /include resolution): (kind, text, fileid, line) per token, or the error text
+pub fn tokenize_path_dump(path: &std::path::Path) -> Result<Vec<(u8, String, usize, u32)>, String> {
+    let filedata = crate::loader::load(path).map_err(|e| e.to_string())?;
+    let result = tokenizer::tokenize(&Filename::from(path), 0, &filedata).map_err(|e| e.to_string())?;
+    Ok(result
+        .tokens
+        .iter()
+        .map(|t| {
+            let kind = match t.ttype {
+                A2lTokenType::Identifier => 0,
+                A2lTokenType::Begin => 1,
+                A2lTokenType::End => 2,
+                A2lTokenType::Include => 3,
+                A2lTokenType::String => 4,
+                A2lTokenType::Number => 5,
+                A2lTokenType::Comment => 6,
+            };
+            (
+                kind,
+                result.filedata[t.fileid][t.startpos..t.endpos].to_string(),
+                t.fileid,
+                t.line,
+            )
+        })
+        .collect())
+}
